@@ -153,6 +153,21 @@ func (g *gen) body(c ctx, d int) []r.Val {
 	return out
 }
 
+// loopBody: the body of dolist / dotimes / do is a tagbody too. Half of the loops get a tag in the middle of the body,
+// with forms after it, that the statements before it (and anything nested in them) may go to.
+func (g *gen) loopBody(nc ctx, d int) []r.Val {
+	if g.pick("looptag", 2) != 0 {
+		return g.body(nc, d+1)
+	}
+	g.ntag++
+	t := fmt.Sprintf("t%dl", g.ntag)
+	tc := nc
+	tc.tags = append(append([]string{}, nc.tags...), t)
+	stmts := g.body(tc, d+1)
+	stmts = append(stmts, sym(t), g.m())
+	return append(stmts, g.body(nc, d+1)...)
+}
+
 // a backward go needs a counter so the program terminates
 func (g *gen) form(c ctx, d int) r.Val {
 	list := func(head string, rest ...r.Val) r.Val { return r.L(append([]r.Val{sym(head)}, rest...)...) }
@@ -246,16 +261,16 @@ func (g *gen) form(c ctx, d int) r.Val {
 	case 17:
 		nc := c.with("dolist")
 		nc.blocks = append(append([]string{}, c.blocks...), "")
-		return list("dolist", append([]r.Val{r.L(sym("e"+fmt.Sprint(d)), r.L(sym("quote"), r.L(int64(1), int64(2))))}, g.body(nc, d+1)...)...)
+		return list("dolist", append([]r.Val{r.L(sym("e"+fmt.Sprint(d)), r.L(sym("quote"), r.L(int64(1), int64(2))))}, g.loopBody(nc, d)...)...)
 	case 18:
 		nc := c.with("dotimes")
 		nc.blocks = append(append([]string{}, c.blocks...), "")
-		return list("dotimes", append([]r.Val{r.L(sym("i"+fmt.Sprint(d)), int64(2))}, g.body(nc, d+1)...)...)
+		return list("dotimes", append([]r.Val{r.L(sym("i"+fmt.Sprint(d)), int64(2))}, g.loopBody(nc, d)...)...)
 	case 19:
 		nc := c.with("do")
 		nc.blocks = append(append([]string{}, c.blocks...), "")
 		v := "k" + fmt.Sprint(d)
-		return list("do", append([]r.Val{r.L(r.L(sym(v), int64(0), list("1+", sym(v)))), r.L(list("=", sym(v), int64(2)), g.m())}, g.body(nc, d+1)...)...)
+		return list("do", append([]r.Val{r.L(r.L(sym(v), int64(0), list("1+", sym(v)))), r.L(list("=", sym(v), int64(2)), g.m())}, g.loopBody(nc, d)...)...)
 	case 20:
 		nc := c.with("funcall-lambda")
 		nc.inFn = true
